@@ -631,14 +631,14 @@ LoopMenu ==
       [k |-> "asgidx", x |-> "i", form |-> "xfirst", a |-> Bin("add", Var("i"), Lit(1)), b |-> Var("i")],
       DPrint(Var("i")),
       [k |-> "cont", lab |-> ""] }
-LoopKinds == {"for", "rng", "rngarr"}
+FamLoopKinds == {"for", "rng", "rngarr"}
 MkLoop(kd, body) ==
     CASE kd = "for"    -> [k |-> "for", v |-> "i", n |-> 3, lab |-> "", body |-> body]
       [] kd = "rng"    -> [k |-> "rng", v |-> "i", n |-> 3, lab |-> "", body |-> body]
       [] kd = "rngarr" -> [k |-> "rngarr", s |-> "", v |-> "i", vv |-> "vi", lab |-> "", body |-> body]
 LoopFamily ==
     { WProg("", <<>>, << [k |-> "mkfs"], MkLoop(kd, <<b[1], b[2]>>), [k |-> "callall"], [k |-> "printg"] >>) :
-        kd \in LoopKinds, b \in [1..2 -> LoopMenu] }
+        kd \in FamLoopKinds, b \in [1..2 -> LoopMenu] }
 
 (* SwitchFamily: expression switches over a tag, with the default clause at every   *)
 (* position, fallthrough out of every clause that is not last in source order, a   *)
